@@ -29,6 +29,24 @@ def class_rows(fields, others, rng):
     rows += pairwise(list(fields) + others, rng)
     return rows
 
+def dup_variants(entries, rng):
+    """maps with one label repeated (same value): adjacent, and as far apart as possible, and with the twin in
+    another integer width; every one of them is ill-formed whatever else the map holds"""
+    out = []
+    if not entries: return out
+    for i in sorted(set([0, len(entries) - 1, rng.randrange(len(entries))])):
+        k, v = entries[i]
+        adj = list(entries); adj.insert(i + 1, (k, v)); out.append(adj)
+        far = list(entries); far.insert(0 if i > 0 else len(entries), (k, v))
+        if len(entries) >= 2: out.append(far)
+        if k[0] == 'i' and -2**63 <= k[1] < 2**63:
+            w = 8 if rng.random() < 0.5 else 2
+            n = k[1] if k[1] >= 0 else -1 - k[1]
+            if n < 256 ** w:
+                twin = ('raw', head(0 if k[1] >= 0 else 1, n, w))
+                other = list(entries); other.insert(rng.randrange(len(entries) + 1), (twin, v)); out.append(other)
+    return out
+
 # ------------------------------------------------------------------ header maps
 # per label: list of (class name, value, valid?)
 HDR_FIELD = {
@@ -88,6 +106,9 @@ def header_combo_cases(case, seed=1):
         out.append(case("dec", ty, b, fam="combo-header:" + ty, expect_re=(r"ok .*" if valid else r"err:\w+")))
         if valid:
             out.append(case("rt", ty, b, fam="combo-header-rt:" + ty, expect_re=r"ok [0-9a-f]+ T T"))
+            for dv in dup_variants(entries, rng):
+                ty2, b2, _ = _carriers(enc(('m', dv)))[ci]
+                out.append(case("dec", ty2, b2, fam="combo-header-dup:" + ty2, expect_re=r"err:\w+"))
     return out
 
 # ------------------------------------------------------------------ keys
@@ -125,6 +146,10 @@ def key_combo_cases(case, seed=1):
         out.append(case("dec", ty, b, fam="combo-key:" + ty, expect_re=(r"ok .*" if valid else r"err:\w+")))
         if valid:
             out.append(case("rt", ty, b, fam="combo-key-rt:" + ty, expect_re=r"ok [0-9a-f]+ T T"))
+            for dv in dup_variants(entries, rng):
+                kb2 = enc(('m', dv))
+                ty2, b2 = {"CoseKey": ("CoseKey", kb2), "set1": ("CoseKeySet", b"\x81" + kb2), "set2": ("CoseKeySet", b"\x82" + good + kb2)}[row[8]]
+                out.append(case("dec", ty2, b2, fam="combo-key-dup:" + ty2, expect_re=r"err:\w+"))
     return out
 
 # ------------------------------------------------------------------ claims sets
@@ -153,6 +178,8 @@ def claims_combo_cases(case, seed=1):
         out.append(case("dec", "ClaimsSet", b, fam="combo-claims", expect_re=(r"ok .*" if valid else r"err:\w+")))
         if valid:
             out.append(case("rt", "ClaimsSet", b, fam="combo-claims-rt", expect_re=r"ok [0-9a-f]+ T T"))
+            for dv in dup_variants(entries, rng):
+                out.append(case("dec", "ClaimsSet", enc(('m', dv)), fam="combo-claims-dup", expect_re=r"err:\w+"))
     return out
 
 # ------------------------------------------------------------------ KDF context
@@ -288,4 +315,44 @@ def builder_pair_cases(case, builder_ops, BUILDERS, seed=1):
         prefix = builder_ops(rng, bt, 3)
         for a in allops:
             out.append(case("build", bt, enc(('a', prefix + [a])), fam="op-after-prefix:" + bt, may_panic=True))
+    return out
+
+# ------------------------------------------------------------------ one label twice, every pair of value classes
+def dup_class_pair_cases(case):
+    """{L: v1, (mandatory fields), L: v2} for every typed label L of headers, keys and claims sets and every pair of
+    value classes (valid or not, "default-looking" ones included): never accepted, whichever value comes first"""
+    out = []
+    for name, table, ty, base in (("header", HDR_FIELD, "Header", []), ("key", KEY_FIELD, "CoseKey", [(I(1), I(4))]),
+                                  ("claims", CLAIM_FIELD, "ClaimsSet", [])):
+        for l, classes in table.items():
+            vals = [c[1] for c in classes]
+            for v1 in vals:
+                for v2 in vals:
+                    b0 = [e for e in base if e[0] != I(l)]
+                    for entries in ([(I(l), v1)] + b0 + [(I(l), v2)], [(I(l), v1), (I(l), v2)] + b0):
+                        out.append(case("dec", ty, enc(('m', entries)), fam="dup-class-pairs:" + name, expect_re=r"err:\w+"))
+    return out
+
+# ------------------------------------------------------------------ wide inputs (time proportional to the input)
+def wide_inputs():
+    """(type, bytes): one repeated position each with ~10^5 elements; all well-formed (so the whole input is processed)"""
+    n = 150000
+    def arr(k): return head(4, k)
+    def mp(k): return head(5, k)
+    out = []
+    out.append(("CoseKdfContext", arr(4 + n) + b"\x01\x83\xf6\xf6\xf6\x83\xf6\xf6\xf6\x82\x18\x80\x40" + b"\x40" * n))
+    m = 40000
+    sig = b"\x83\x40\xa0\x40"; rec = b"\x83\x40\xa0\xf6"
+    out.append(("CoseSign", b"\x84\x40\xa0\xf6" + arr(m) + sig * m))
+    out.append(("CoseEncrypt", b"\x84\x40\xa0\xf6" + arr(m) + rec * m))
+    out.append(("CoseMac", b"\x85\x40\xa0\xf6\x40" + arr(m) + rec * m))
+    out.append(("CoseRecipient", b"\x84\x40\xa0\xf6" + arr(m) + rec * m))
+    out.append(("Header", mp(1) + b"\x07" + arr(m) + sig * m))
+    out.append(("Header", mp(1) + b"\x02" + arr(n) + b"\x01" * n))
+    k = 30000
+    out.append(("Header", mp(k) + b"".join(b"\x19" + (1000 + i).to_bytes(2, "big") + b"\x00" for i in range(k))))
+    out.append(("CoseKey", mp(k + 1) + b"\x01\x04" + b"".join(b"\x39" + (1000 + i).to_bytes(2, "big") + b"\x00" for i in range(k))))
+    out.append(("ClaimsSet", mp(k) + b"".join(b"\x64" + ("%04x" % i).encode() + b"\x00" for i in range(k))))
+    out.append(("CoseKeySet", arr(m) + b"\xa1\x01\x04" * m))
+    out.append(("CoseKey", mp(2) + b"\x01\x04\x04" + arr(k) + b"".join(b"\x64" + ("%04x" % i).encode() for i in range(k))))
     return out
